@@ -22,9 +22,9 @@ Proof. unfold upd_proc. destruct (alookup p (w_procs w)); [apply pk_set_procs_as
 Lemma pk_wake p w : pk w (wake_selecting p w).
 Proof. unfold wake_selecting. destruct (mem p (w_selecting w)); apply pk_same; reflexivity. Qed.
 Lemma pk_notify_result a b r w : pk w (notify_result a b r w).
-Proof. unfold notify_result. eapply pk_trans; [apply pk_upd_proc|apply pk_wake]. Qed.
+Proof. unfold notify_result. destruct (awaits a b w); [eapply pk_trans; [apply pk_upd_proc|apply pk_wake]|apply pk_wake]. Qed.
 Lemma pk_worker_notify a b r w : pk w (worker_notify a b r w).
-Proof. unfold worker_notify. destruct r; [apply pk_notify_result|apply pk_upd_proc]. Qed.
+Proof. unfold worker_notify. destruct r; [apply pk_notify_result|]. destruct (awaits a b w); [apply pk_upd_proc|apply pk_wake]. Qed.
 Lemma pk_fold {A} (f : worker -> A -> worker) l : (forall w x, pk w (f w x)) -> forall w, pk w (fold_left f l w).
 Proof. intros Hf. induction l as [|x l IH]; intros w; simpl; [apply pk_refl|]. eapply pk_trans; [apply Hf|apply IH]. Qed.
 Lemma pk_mark_active p w : pk w (mark_active p w).
@@ -34,7 +34,7 @@ Proof.
   unfold update_await.
   assert (H: pk w (fold_left (fun w e => match snd e with Some r => worker_notify a (fst e) r w | None => w end) rs w)).
   { apply pk_fold. intros w0 x. destruct (snd x); [apply pk_worker_notify|apply pk_refl]. }
-  destruct (existsb _ rs); [exact H|]. eapply pk_trans; [exact H|apply pk_mark_active].
+  destruct (existsb _ rs); [exact H|]. eapply pk_trans; [exact H|apply pk_wake].
 Qed.
 Lemma pk_query_fold a ts : forall w rs, pk w (fst (fold_left (query_one a) ts (w, rs))).
 Proof.
